@@ -5,6 +5,7 @@
     quirks <startFix> <noackFix> <rangeFix> <histFix>       (0/1; which repairs the tree has)
     reset | add <id> | del <ids> | create <g> <id|$> | destroy <g> | setid <g> <id|$>
     createc <g> <c> | delc <g> <c> | read <g> <c> <>|id> <count|-> <noack 0|1> | ack <g> <ids>
+    bad <kind> <g>   (malformed command at handler level: refused, nothing changes)
     tnow <ms> | pidle <g> <id> | claim <g> <c> <0|huge|ms> <force 0|1> <ids> | autoclaim <g> <c> <0|huge> <start> <count>
     pending <g> | prange <g> <start|-> <end|+> <count> <c|->
   answered by the `Code` model as  `<reply> ;; S <stream ids> ;; G <g> <last> <byid> <byc> <cons> <total> <min> <max> ;; …`
@@ -230,6 +231,12 @@ def judge (s0 : St) (secs : List (List String)) : String :=
 
 /-! ### the line loop -/
 
+def badKinds : List String :=
+  ["create-badid", "create-arity", "create-wrongtype", "setid-badid", "setid-arity", "setid-wrongtype",
+   "destroy-arity", "destroy-wrongtype", "delc-arity", "delc-wrongtype", "createc-arity", "unknown-sub", "ack-badid",
+   "ack-arity", "ack-wrongtype", "claim-badidle", "claim-badid", "claim-arity", "read-badid", "read-unbalanced",
+   "read-syntax", "pending-badcount", "pending-syntax"]
+
 structure DState where
   q : Quirks
   s : St
@@ -246,6 +253,11 @@ def step (d : DState) (ws : List String) : DState × String :=
     match parseBool a, parseBool b, parseBool c, parseBool e with
     | some a, some b, some c, some e => ({ d with q := ⟨a, b, c, e⟩ }, "ok")
     | _, _, _, _ => (d, "bad-op")
+  | ["bad", kind, g] =>
+    -- a malformed / refused administration command (handler level): it is refused and changes nothing
+    match num g with
+    | some _ => if badKinds.contains kind then (d, showStWith "refused" d.s) else (d, "bad-op")
+    | none => (d, "bad-op")
   | ["tnow", ms] =>
     match num ms with
     | some ms => ({ d with clock := ms }, "ok")
